@@ -617,10 +617,22 @@ pub fn run_property<P: Property>(p: &P, opts: &Opts) -> i32 {
     // --- report
     // de-duplicate failures by clause
     let mut by_clause: BTreeMap<String, Found<P::Case>> = BTreeMap::new();
+    #[allow(clippy::map_entry)]
     for f in found {
         by_clause.entry(f.failure.clause.clone()).or_insert(f);
     }
     let mut violations = 0usize;
+    // a failed oracle self-check or a generator fault says nothing about the property
+    let infra: Vec<String> = by_clause
+        .keys()
+        .filter(|k| k.starts_with("oracle-self-check") || k.starts_with("generator |") || k.starts_with("infrastructure |") || k.starts_with("flaky-oracle"))
+        .cloned()
+        .collect();
+    for k in infra {
+        if let Some(f) = by_clause.remove(&k) {
+            inconclusive.push(format!("{}: {} (case: {})", f.failure.clause, f.failure.detail, serde_json::to_string(&f.case).unwrap_or_default()));
+        }
+    }
     for l in &known_lines {
         println!("{}", l);
     }
